@@ -25,7 +25,7 @@ ASSUMPTIONS = ['structural depth of the output is computed from the refjs tree o
                'of multi-line string / comment tokens and lines that start with a comment are exempt']
 BUDGET_S = {'quick': 60, 'thorough': 700}
 REQUIRED_HITS = ['pretty_print', 'used_printer', 'shape', 'lines_checked', 'Indentator.indent', 'Indentator.dedent', 'level_zero_at_end']
-FLOOR = {'quick': 1500, 'thorough': 30000}
+FLOOR = {'quick': 1500, 'thorough': 20000}
 
 INDENTS = ['  ', '\t', '', ' ', '   ', '    ', ' \t']
 LT = '\n\r\u2028\u2029'
